@@ -17,6 +17,11 @@ MACHINES = ["M-TI"]
 
 
 def generate(rng, tier, idx):
+    if idx % 8 == 7:
+        # a tree READ from a pre-productmd file (recorded corpus of RHEL 3-6 / Fedora / CentOS layouts) and written back
+        return {"machine": "M-TI", "cfg": {"simset": "insertion"},
+                "ops": [{"op": "ti_golden", "path": "/sim/d/.treeinfo", "k": rng.randrange(10 ** 6), "via": pick(rng, ["path", "handle", "loads"])}
+                        for _ in range(rng.randint(1, 3))]}
     K = gen_ti.gen_content(rng, max_top=4, float_ts=rng.random() < 0.5)
     ops = gen_ti.build_ops(K, rng)
     if rng.random() < 0.15:
